@@ -411,8 +411,11 @@ for mi in range(nhelp_mat):
                             # the helpers read the unit case-insensitively (unit.lower()): every accepted spelling means the same
                             spelled = unit if rng.random() < 0.6 else str(rng.choice([unit.capitalize(), unit.upper()]))
                             chk.count(unit_spelling="lower-case" if spelled == unit else "capitalised")
+                            # the documented boolean flag may arrive as a numpy bool (np.any(...)) or as 0 / 1
+                            fc_arg = [fc, np.bool_(fc), int(fc)][int(rng.integers(0, 3))] if rng.random() < 0.4 else fc
+                            chk.count(force_complex_spelling=type(fc_arg).__name__)
                             kw = dict(interface_kind=KINDS[kind], material_inc=m_inc, mode_inc=MODES[m_in],
-                                      mode_out=MODES[m_out], angles_inc=alphas.copy(), force_complex=fc,
+                                      mode_out=MODES[m_out], angles_inc=alphas.copy(), force_complex=fc_arg,
                                       unit=spelled)
                             try:
                                 if helper == "tr":
